@@ -188,9 +188,66 @@ func rowTwin(name, canary, kind string, ds ...rowDesc) cat.Program {
 
 var rowToken = regexp.MustCompile(`\[[^\]\[]*\]`)
 
+// unicodeKeys: keys that differ only in a format character (ZWNJ, ZWSP, soft hyphen, BOM inside),
+// a combining mark vs the precomposed letter, letter case beyond ASCII, NBSP vs blank-free.
+var unicodeKeys = []string{
+	"می\u200cروم", "میروم", // ZWNJ
+	"ab\u200bcd", "abcd", "ab\u00adcd", // ZWSP, soft hyphen
+	"caf\u00e9", "cafe\u0301", // precomposed / combining
+	"\u0130d", "id", "\u0131d", // dotted / dotless i
+	"stra\u00dfe", "strasse",
+	"x\ufeffy", "xy", // BOM inside
+	"r\u200fl", "rl", // direction mark
+}
+
+func unicodeProgram() cat.Program {
+	labels := map[string]vals.V{}
+	var cells []string
+	for i, k := range unicodeKeys {
+		labels[k] = s(fmt.Sprintf("u%d", i))
+		cells = append(cells, "{{ labels."+k+" }}")
+	}
+	// every path twice, the second time in reverse order (so each twin is once the first resolved)
+	var rev []string
+	for i := len(cells) - 1; i >= 0; i-- {
+		rev = append(rev, cells[i])
+	}
+	page := "<p>[" + strings.Join(cells, "|") + "]</p><p>[" + strings.Join(rev, "|") + "]</p><i>{{ who }}</i>" + end
+	return cat.Program{Name: "x-unicode-paths", Canary: "xupWHO", Feat: []string{"unicode-paths", "paths", "many-engines"},
+		Files: map[string]string{"page.vuego": page},
+		Data: map[string]vals.V{"who": s("xupWHO"), "labels": m(labels),
+			// top-level keys the engine might "normalise" in the caller's map
+			"\ufeffbom": s("bom-first"), "na\u200cme": s("zwnj"), "nb\u00a0sp": s("nbsp"), "e\u0301": s("combining"), "\u00e9": s("precomposed"),
+			"nested": m(map[string]vals.V{"\ufeffinner": s("ib"), "in\u200bner": anys(s("l1"), m(map[string]vals.V{"\ufeffdeep": s("d")}))})}}
+}
+
+// absoluteUnicode: the bracketed lists print the values of the keys exactly as spelt.
+func absoluteUnicode(p cat.Program, v int, r result) error {
+	if !hasFeat(p, "unicode-paths") || v > 2 || r.failed {
+		return nil
+	}
+	lab := variant(p.Data["labels"], v).M
+	var fwd, rev []string
+	for _, k := range unicodeKeys {
+		fwd = append(fwd, lab[k].S)
+	}
+	for i := len(fwd) - 1; i >= 0; i-- {
+		rev = append(rev, fwd[i])
+	}
+	want := []string{"[" + strings.Join(fwd, "|") + "]", "[" + strings.Join(rev, "|") + "]"}
+	got := rowToken.FindAllString(string(r.out), -1)
+	if strings.Join(got, " ") != strings.Join(want, " ") {
+		return fmt.Errorf("paths that differ only in a format character / combining mark / non-ASCII case printed %v, the values of the keys as spelt are %v", got, want)
+	}
+	return nil
+}
+
 // absolute checks the expectation that does not come from vuego (row-twin programs, the data
 // variants that keep the field types: 0..2).
 func absolute(p cat.Program, v int, r result) error {
+	if err := absoluteUnicode(p, v, r); err != nil {
+		return err
+	}
 	if !hasFeat(p, "row-twin") || v > 2 || r.failed {
 		return nil
 	}
